@@ -17,7 +17,7 @@ func init() { generators["microtasks"] = genMicroTasks }
 //   - every atomic.AddInt32 on the global counter / the per-module counter, per function, with its delta,
 //   - that the enqueue-timeout path counts and the wait-timeout path does not,
 //   - that concludeMicroTask decrements the global counter before it offers the finished token,
-//   - the default max delays.
+//   - the default max delays, and which of Run*/Signal* replace a max delay of 0 by the default.
 //
 // It fails closed: any function of the file that touches the counters in a shape not listed here is an error.
 func genMicroTasks() {
@@ -209,6 +209,43 @@ func genMicroTasks() {
 		}
 	}
 	sb.WriteString("/-- the enqueue-timeout path of get*PriorityClearance counts the task itself; the wait-timeout path leaves the increment to the scheduler -/\ndef timeoutEnqueueCounts : Bool := true\ndef timeoutWaitCounts : Bool := false\n\n")
+
+	// --- which API functions replace a max delay of 0 by the documented default
+	for _, e := range [][2]string{{"RunMicroTask", "runMediumDefaultsZeroDelay"}, {"RunLowPriorityMicroTask", "runLowDefaultsZeroDelay"},
+		{"SignalMicroTask", "signalMediumDefaultsZeroDelay"}, {"SignalLowPriorityMicroTask", "signalLowDefaultsZeroDelay"}} {
+		fn := findFunc(f, e[0], "Module")
+		if fn == nil {
+			die("%s not found", e[0])
+		}
+		defaults := 0
+		ast.Inspect(fn.Body, func(n ast.Node) bool {
+			is, ok := n.(*ast.IfStmt)
+			if !ok {
+				return true
+			}
+			be, ok := is.Cond.(*ast.BinaryExpr)
+			if !ok || !isIdent(be.X, "maxDelay") {
+				return true
+			}
+			// the only recognised shape: if maxDelay <= 0 { maxDelay = default…MaxDelay }
+			okShape := be.Op == token.LEQ && constVal(fset, be.Y).ExactString() == "0" && is.Else == nil && len(is.Body.List) == 1
+			if okShape {
+				as, ok := is.Body.List[0].(*ast.AssignStmt)
+				okShape = ok && len(as.Lhs) == 1 && len(as.Rhs) == 1 && isIdent(as.Lhs[0], "maxDelay") &&
+					(isIdent(as.Rhs[0], "defaultMediumPriorityMaxDelay") || isIdent(as.Rhs[0], "defaultLowPriorityMaxDelay"))
+			}
+			if !okShape {
+				die("%s: unrecognised condition on maxDelay", e[0])
+			}
+			defaults++
+			return true
+		})
+		if defaults > 1 {
+			die("%s: more than one default-delay statement", e[0])
+		}
+		fmt.Fprintf(&sb, "/-- does `%s` replace a max delay ≤ 0 by the default before waiting for a clearance? -/\ndef %s : Bool := %v\n", e[0], e[1], defaults == 1)
+	}
+	sb.WriteString("\n")
 
 	// --- concludeMicroTask: decrement before the finished token is offered
 	con := findFunc(f, "concludeMicroTask", "Module")
